@@ -3,7 +3,7 @@ symbolic arguments, enclosing loops and guards (used by the construction-shape r
 import re
 
 from .facts import callee, strip, walk, plain_local
-from .symx import single_atom, atom_fn, atom_args, SymEval, Unsupported, Poly, app, var, num, vkey
+from .symx import single_atom, atom_fn, atom_args, SymEval, Unsupported, Poly, app, var, num, vkey, unkey
 
 
 _SEQ = [0]
@@ -28,6 +28,15 @@ class Event:
 
     def __repr__(self):
         return "Event(%s %r loops=%r guards=%r @%s)" % (self.callee, self.args, self.loops, self.guards, self.site)
+
+
+def _keys_overlap(a, b):
+    """can one value match both pattern keys?"""
+    if a == "_" or b == "_":
+        return True
+    if isinstance(a, tuple) and isinstance(b, tuple):
+        return len(a) == len(b) and all(_keys_overlap(x, y) for x, y in zip(a, b))
+    return a == b
 
 
 class GuardList(list):
@@ -126,6 +135,76 @@ class Tracer(SymEval):
         self.assigned = {}
         self.carried_init = {}      # loop-carried local -> its value on loop entry
         self.assign_sites = []      # (local, value, loops, guards) of every assignment to a plain local
+        self._after_stmt = []       # ((cond, polarity), guard depth) established by a `?` inside the statement being read
+        # opt-in store tracking for fields of `self` (used by the transformer readings): a read after a store sees the stored value
+        self.track_fields = False
+        self.field_store = {}       # access path -> (value, guards at the store, loops at the store)
+        self.loop_fields = {}       # loop id -> {access path: value on loop entry} for fields stored to inside that loop
+        self._lhs = 0
+
+    # -- tracked fields -------------------------------------------------------
+    def e_field(self, n, env):
+        v = super().e_field(n, env)
+        if self.track_fields and not self._lhs:
+            a = single_atom(v) if isinstance(v, Poly) else None
+            if a is not None and a[0] == "v" and a[1] in self.field_store:
+                return self._field_current(a[1])
+        return v
+
+    def _field_current(self, path):
+        val, gs, ls = self.field_store[path]
+        if list(self.guards[:len(gs)]) == gs and list(self.loops[:len(ls)]) == ls:
+            return val          # the store dominates this read
+        return var("%s@unknown" % path)
+
+    def eval_lhs(self, n, env):
+        self._lhs += 1
+        try:
+            return self.eval(n, env)
+        finally:
+            self._lhs -= 1
+
+    def store_field(self, l, r, op):
+        """record `l = r` / `l op= r` for a tracked field; -> the value the field holds afterwards (None when l is not a field path)"""
+        if not self.track_fields:
+            return None
+        a = single_atom(l) if isinstance(l, Poly) else None
+        if a is None or a[0] != "v" or "." not in a[1]:
+            return None
+        path = a[1]
+        if op:
+            cur = self._field_current(path) if path in self.field_store else l
+            r = self.arith(op, cur, r)
+        self.field_store[path] = (r, list(self.guards), list(self.loops))
+        return r
+
+    def _stored_fields(self, body, env):
+        out = []
+        if not self.track_fields:
+            return out
+        for a in walk(body):
+            if a.get("k") in ("assign", "assignop") and plain_local(a["l"]) is None:
+                try:
+                    l = self.eval_lhs(a["l"], dict(env))
+                except Unsupported:
+                    continue
+                la = single_atom(l) if isinstance(l, Poly) else None
+                if la is not None and la[0] == "v" and "." in la[1] and la[1] not in out:
+                    out.append(la[1])
+        return out
+
+    def _enter_loop_fields(self, lid, body, env):
+        """fields stored to in a loop body are loop-carried: inside the loop they read as path@loop<id>"""
+        fs = self._stored_fields(body, env)
+        if fs:
+            self.loop_fields[lid] = {p_: (self._field_current(p_) if p_ in self.field_store else var(p_)) for p_ in fs}
+            for p_ in fs:
+                self.field_store[p_] = (var("%s@loop%d" % (p_, lid)), list(self.guards), list(self.loops))
+        return fs
+
+    def _leave_loop_fields(self, lid, fs):
+        for p_ in fs:
+            self.field_store[p_] = (var("%s@after%d" % (p_, lid)), list(self.guards), list(self.loops))
 
     # -- iterator descriptions ----------------------------------------------
     def iter_desc(self, it, env):
@@ -152,6 +231,11 @@ class Tracer(SymEval):
             if m in ("map", "filter", "filter_map", "zip", "skip", "step_by", "take", "flat_map", "take_while", "map_while", "skip_while"):
                 inner = self.iter_desc(it["recv"], env)
                 extra = [self.eval(a, env) for a in it["args"]]     # (closure literals go through e_closure, which remembers their environment)
+                if m == "zip" and len(extra) == 1 and inner[0] == "elems" and isinstance(inner[1], tuple) and len(inner[1]) == 3 and \
+                        inner[1][:2] == ("struct", "RangeFrom") and dict(inner[1][2]).get("start") == num(0):
+                    # (0..).zip(xs) numbers the elements of xs from 0: xs.enumerate()
+                    other = extra[0]
+                    return ("enumerate", other[1] if isinstance(other, tuple) and other and other[0] == "iterdesc" else ("elems", other))
                 return (m, inner) + tuple(extra)
         v = self.eval(it, env)
         if isinstance(v, tuple) and v and v[0] == "iterdesc":
@@ -300,11 +384,14 @@ class Tracer(SymEval):
                     if nm in env:
                         self.carried_init[nm] = env[nm]
                     e2[nm] = var(nm.split("#")[0] + "@loop")
+        lid = next_seq()
+        fs = self._enter_loop_fields(lid, n["body"], e2)
         self.loops.append(loop)
         try:
             self.eval(n["body"], e2)
         finally:
             self.loops.pop()
+            self._leave_loop_fields(lid, fs)
         # after the loop, loop-carried variables stay unknown
         for a in walk(n["body"]):
             if a.get("k") in ("assign", "assignop"):
@@ -323,6 +410,14 @@ class Tracer(SymEval):
     def e_while(self, n, env):
         e2 = dict(env)
         self._forget_assigned(n["body"], e2, "@loop")
+        lid = next_seq()
+        fs = self._enter_loop_fields(lid, n["body"], e2)
+        try:
+            return self._e_while(n, env, e2, lid)
+        finally:
+            self._leave_loop_fields(lid, fs)
+
+    def _e_while(self, n, env, e2, lid):
         # the condition is evaluated once per iteration: calls inside it (e.g. `while .. && let Ok(x) = rx.recv()`) belong to the loop
         self.loops.append(("while", None))
         try:
@@ -332,12 +427,12 @@ class Tracer(SymEval):
         for ev_ in self.events:
             for i_, l_ in enumerate(ev_.loops):
                 if l_ == ("while", None):
-                    ev_.loops[i_] = ("while", c)
+                    ev_.loops[i_] = ("while", c, lid)
         for st_ in getattr(self, "sites", []):
             for i_, l_ in enumerate(st_["loops"]):
                 if l_ == ("while", None):
-                    st_["loops"][i_] = ("while", c)
-        self.loops.append(("while", c))
+                    st_["loops"][i_] = ("while", c, lid)
+        self.loops.append(("while", c, lid))
         self.guards.append((c, True))
         try:
             self.eval(n["body"], e2)
@@ -431,12 +526,22 @@ class Tracer(SymEval):
             for _ in range(pushed[0]):
                 self.guards.pop()
 
+    def _flush_after_stmt(self, pushed):
+        """conditions established by `?` in the statement just read hold for the rest of the block (only when the `?` sat at
+        this block's own guard depth: one inside a branch says nothing about the code after the branch)"""
+        for g, depth in self._after_stmt:
+            if depth == len(self.guards):
+                self.guards.append(g)
+                pushed[0] += 1
+        del self._after_stmt[:]
+
     def _e_block_guarded(self, n, env, pushed):
         env = dict(env) if n.get("stmts") else env
         for s in n.get("stmts", []):
             if s["k"] == "let":
                 if "init" in s:
                     v = self.eval(s["init"], env)
+                    self._flush_after_stmt(pushed)
                     if "els" in s:
                         # let PAT = v else { diverge }: the else block runs when PAT does not match; afterwards it matched
                         from .tables import pat_key
@@ -458,6 +563,7 @@ class Tracer(SymEval):
                 if e.get("k") in ("assign", "assignop"):
                     nm = plain_local(e["l"])
                     r = self.eval(e["r"], env)
+                    self._flush_after_stmt(pushed)
                     if nm is not None:
                         if e["k"] == "assignop":
                             r = self.arith(e["op"].replace("Assign", ""), self.eval(e["l"], env), r)
@@ -499,6 +605,7 @@ class Tracer(SymEval):
                             pushed[0] += 1
                             continue
                 self.eval(e, env)
+                self._flush_after_stmt(pushed)
         if n.get("e") is not None:
             return self.eval(n["e"], env)
         return ("tuple", [])
@@ -546,7 +653,13 @@ class Tracer(SymEval):
                     self.guards.append((app("matches", s, repr(k_)), False))
                 npush = len(earlier)
             else:
+                # arms are tried in order: this arm is reached only when no earlier unguarded arm that overlaps it matched
+                over = [k_ for k_ in earlier if not (isinstance(k_, tuple) and k_ and k_[0] == "?guarded") and k_ != key_ and _keys_overlap(k_, key_)] \
+                    if isinstance(s, Poly) else []
+                for k_ in over:
+                    self.guards.append((app("matches", s, repr(k_)), False))
                 self.guards.append((app("matches", s, repr(key_)), True))
+                npush = len(over) + 1
             if "guard" not in a:
                 earlier.append(key_)
             else:
@@ -568,8 +681,63 @@ class Tracer(SymEval):
         from .symx import build_match
         return build_match(s, arms, guarded=any("guard" in a for a in n["arms"]))
 
+    def option_call(self, path, args):
+        if path and path.startswith("std::option::Option::<") and len(args) == 2 and isinstance(args[0], Poly) and \
+                path.rsplit("::", 1)[-1] in ("is_some_and", "is_none_or") and isinstance(args[1], tuple) and args[1] and args[1][0] in ("closure", "fn"):
+            # o.is_some_and(f) = o is Some && f(payload); the closure body runs only when o is Some
+            m = app("matches", args[0], self.SOME_KEY)
+            self.guards.append((m, True))
+            try:
+                v = self.apply(args[1], [app("payload0", args[0])])
+            finally:
+                self.guards.pop()
+            if path.endswith("is_some_and"):
+                return self.arith("And", m, v)
+            return self.arith("Or", app("not", m), v)
+        if path and path.startswith("std::option::Option::<") and len(args) == 2 and path.rsplit("::", 1)[-1] in ("map", "and_then", "filter", "inspect") \
+                and isinstance(args[1], tuple) and args[1] and args[1][0] in ("closure", "fn"):
+            # the closure of o.map(f) runs only when o is Some: its effects carry that path condition
+            o = args[0]
+            src = o[1] if isinstance(o, tuple) and len(o) == 3 and o[0] == "opt" else o
+            if isinstance(src, Poly):
+                self.guards.append((app("matches", src, self.SOME_KEY), True))
+                try:
+                    return super().option_call(path, args)
+                finally:
+                    self.guards.pop()
+        return super().option_call(path, args)
+
     def e_try(self, n, env):
         v = super().e_try(n, env)
+        a = single_atom(v) if isinstance(v, Poly) else None
+        if a is not None and atom_fn(a) == "try":
+            # (if c { Ok(x) } else { Err(e) })? : leaves with Err(e) when !c, continues with x under c.  The condition holds for
+            # the statements that follow in the same block (applied by the block once this statement is done).
+            inner = atom_args(a)[0]
+            ia = single_atom(inner) if isinstance(inner, Poly) else None
+            if ia is not None and atom_fn(ia) == "ite":
+                c, t_, e_ = atom_args(ia)
+                t_, e_ = unkey(t_), unkey(e_)
+                good = lambda x: isinstance(x, tuple) and len(x) == 3 and x[0] == "ctor" and x[1] in ("Ok", "Some") and len(x[2]) == 1
+                bad = lambda x: (isinstance(x, tuple) and len(x) == 3 and x[0] == "ctor" and x[1] == "Err") or x == ("variant", "None")
+                for pol, g_, b_ in ((True, t_, e_), (False, e_, t_)):
+                    if isinstance(c, Poly) and good(g_) and bad(b_):
+                        self.events.append(Event("<return>" if self.depth == 0 else "<return-inner>", [b_], self.loops,
+                                                 list(self.guards) + [(c, not pol)], n.get("sp"), n))
+                        self._after_stmt.append(((c, pol), len(self.guards)))
+                        return g_[2][0]
+            if ia is not None and atom_fn(ia) == "match" and len(ia) == 4 and isinstance(ia[3], tuple) and len(ia[3]) == 2:
+                # (match o { Some(v) => Ok(f(v)), None => Err(e) })?  -- e.g. o.ok_or(e)? on an opaque option
+                o = atom_args(ia)[0]
+                arms = [(k, unkey(x)) for k, x in ia[3]]
+                good = [(k, x) for k, x in arms if isinstance(x, tuple) and len(x) == 3 and x[0] == "ctor" and x[1] in ("Ok", "Some") and len(x[2]) == 1]
+                bad = [(k, x) for k, x in arms if (isinstance(x, tuple) and len(x) == 3 and x[0] == "ctor" and x[1] == "Err") or x == ("variant", "None")]
+                if isinstance(o, Poly) and len(good) == 1 and len(bad) == 1 and good[0][0].startswith("('"):
+                    m = app("matches", o, good[0][0])
+                    self.events.append(Event("<return>" if self.depth == 0 else "<return-inner>", [bad[0][1]], self.loops,
+                                             list(self.guards) + [(m, False)], n.get("sp"), n))
+                    self._after_stmt.append(((m, True), len(self.guards)))
+                    return good[0][1][2][0]
         # `?` is a possible early exit: recorded so that rules can ask what may be skipped by it
         self.events.append(Event("<try>", [v], self.loops, self.guards, n.get("sp"), n))
         return v
@@ -590,19 +758,55 @@ class Tracer(SymEval):
 
     def e_assign(self, n, env):
         r = self.eval(n["r"], env)
-        self.events.append(Event("<assign>", [self.eval(n["l"], env), r], self.loops, self.guards, n.get("sp"), n))
+        # a `?` inside the assigned value: the store happens only on the continuing path
+        gs = list(self.guards) + [g for g, d in self._after_stmt if d == len(self.guards)]
+        l = self.eval_lhs(n["l"], env)
+        new = self.store_field(l, r, n["op"].replace("Assign", "") if n.get("k") == "assignop" else "")
+        self.events.append(Event("<assign>", [l, r] + ([new] if new is not None else []), self.loops, gs, n.get("sp"), n))
         return ("tuple", [])
 
     e_assignop = e_assign
 
+    def _leading_exit(self, n):
+        """`loop { if c { break v } rest }` with no other break of this loop -> (c, break node, rest block), else None"""
+        body = n["body"]
+        stmts = body.get("stmts", [])
+        if not stmts or stmts[0].get("k") == "let":
+            return None
+        first = strip(stmts[0]["e"])
+        if first.get("k") != "if" or "e" in first or strip(first["c"]).get("k") == "letx":
+            return None
+        tb = strip(first["t"])
+        inner = [strip(x["e"]) for x in tb.get("stmts", []) if x.get("k") != "let"] + ([strip(tb["e"])] if tb.get("e") is not None else [])
+        if tb.get("k") != "block" or len(inner) != 1 or len(tb.get("stmts", [])) + (1 if tb.get("e") is not None else 0) != 1:
+            return None
+        br = inner[0]
+        if br.get("k") != "break" or br.get("target") != n.get("id"):
+            return None
+        rest = {"k": "block", "stmts": stmts[1:], "ty": "()"}
+        if body.get("e") is not None:
+            rest["e"] = body["e"]
+        if any(x.get("k") == "break" and x.get("target") == n.get("id") for x in walk(rest)):
+            return None
+        return first["c"], br, rest
+
     def e_loop(self, n, env):
+        le = self._leading_exit(n)
+        if le is not None:
+            # loop { if c { break v } rest }  is  while !c { rest }; v
+            c, br, rest = le
+            self.e_while({"k": "while", "c": {"k": "un", "op": "Not", "e": c, "ty": "bool", "sp": c.get("sp")}, "body": rest, "sp": n.get("sp")}, env)
+            return self.eval(br["e"], env) if br.get("e") is not None else ("tuple", [])
         e2 = dict(env)
         self._forget_assigned(n["body"], e2, "@loop")
+        lid = next_seq()
+        fs = self._enter_loop_fields(lid, n["body"], e2)
         self.loops.append(("loop",))
         try:
             self.eval(n["body"], e2)
         finally:
             self.loops.pop()
+            self._leave_loop_fields(lid, fs)
         self._forget_assigned(n["body"], env, "@after")
         return ("tuple", [])
 
